@@ -158,7 +158,9 @@ def _gen_txt(rng):
     names = [str(s) for s in rng.permutation(_NAMES)[:k]]
     return {"kind": "txt", "names": names,
             "formats": [str(rng.choice(FORMATS)) for _ in range(k)],
-            "arrays": [_values(rng, L) for _ in range(k)]}
+            "arrays": [_values(rng, L) for _ in range(k)],
+            # data handed over as (1, n) row vectors (np.atleast_2d / table[i:i+1])
+            "row_vectors": bool(rng.random() < 0.2)}
 
 
 def generate(rng, tier, i):
@@ -181,6 +183,10 @@ def floor(tier):
         {"kind": "txt", "names": ["a", "b"], "formats": ["%.17e", "%2.2e"],
          "arrays": [[1.0], [2.0]]},
         {"kind": "txt", "names": ["a"], "formats": ["%.17e"], "arrays": [[1.0]]},
+        {"kind": "txt", "names": ["a"], "formats": ["%.17e"], "arrays": [[1.0, 2.0, 3.0]],
+         "row_vectors": True},
+        {"kind": "txt", "names": ["a", "b"], "formats": ["%.17e", "%.17e"],
+         "arrays": [[1.0, 2.0, 3.0], [4.0, 5.0, 6.0]], "row_vectors": True},
         {"kind": "txt", "names": ["error_p-norm", "flux[0]", "rel.error", "file"],
          "formats": ["%.17e"] * 4, "arrays": [[1.0, 2.0], [3.0, 4.0], [5.0, 6.0], [7.0, 8.0]]},
         {"kind": "txt", "names": ["u(t)", "k_x/k_y"], "formats": ["%2.2e", "%.17e"],
@@ -338,7 +344,11 @@ def _txt(case, mon, tmp):
     arrays = [np.asarray(a, dtype=float) for a in case["arrays"]]
     fmts = list(case["formats"])
     k, L = len(names), arrays[0].size
-    data = [txt_io.TxtData(n, a.copy(), fm) if fm != "%2.2e" else txt_io.TxtData(n, a.copy())
+    shp = (lambda a: a.reshape(1, -1)) if case.get("row_vectors") else (lambda a: a)
+    if case.get("row_vectors"):
+        mon.count("txt:arrays_given_as_row_vectors")
+    data = [txt_io.TxtData(n, shp(a.copy()), fm) if fm != "%2.2e"
+            else txt_io.TxtData(n, shp(a.copy()))
             for n, a, fm in zip(names, arrays, fmts)]
     f = tmp / "data.txt"
     txt_io.export_data_to_txt(data, f)
